@@ -445,10 +445,22 @@ def rename_entry(res, key):
         return
     if name.startswith('glue.'):
         try:
-            lookup_class(name)
+            target = lookup_class(name)
         except Exception as ex:
+            target = None
             res.violation('rename-target-imports', 'rename-table|target not importable|%s' % name, case,
                           repr(ex), 'importable')
+        # ... and the REAL resolver (what the un-serializer calls) must arrive at that very object from the old
+        # name, however many hops the table needs
+        if target is not None:
+            from glue.core.state import lookup_class_with_patches
+            try:
+                got = lookup_class_with_patches(key)
+            except Exception as ex:
+                got = repr(ex)
+            if got is not target:
+                res.violation('rename-resolves', 'rename-table|resolver|%d-hop chain' % (len(chain) - 1), case,
+                              repr(got), '%s (via %s)' % (name, ' -> '.join(chain)))
     try:
         here = lookup_class(key)
     except Exception:
